@@ -128,6 +128,11 @@ def corpus():
                          ["call", 4, "join>on_field", [_r(7)], {}, [_s("a")], {}],
                          ["call", 4, "join>cross", [_r(1)], {}, [], {}], ["call", 4, "join>on", [_r(1)], {}, [_crit("b", 1)], {}]],
                "theme": "corpus", "twin": False, "repeats": []})
+    # each chained form on its own fresh table: the write, the receiver and a bystander query re-render
+    for m, a in (("on", [_crit("a", 0)]), ("on_field", [_s("a")]), ("using", [_s("a")]), ("cross", [])):
+        cs.append({"steps": [["new", "Table:t1"], ["new", "QueryBuilder"], _call(1, "from_", _r(0)), _call(2, "select", _s("a")),
+                             ["new", "QueryBuilder"], _call(4, "from_", _r(0)), _call(5, "select", _s("b")),
+                             ["call", 3, "join>" + m, [_r(0)], {}, a, {}]], "theme": "corpus", "twin": False, "repeats": []})
     # regression: branching on every class whose sharing was repaired (C01-fixed-*)
     cs.append({"steps": [["new", "Case"], _call(0, "when", _crit("a"), _s("x")), _call(0, "when", _crit("b"), _s("y")),
                          _call(1, "else_", _s("e")), _call(1, "when", _crit("c"), _s("z"))], "theme": "corpus", "twin": False, "repeats": []})
